@@ -9,3 +9,6 @@ import Verif.Props.C20
 import Verif.Model.Chain
 import Verif.Lemmas.Chain
 import Verif.Props.C01
+import Verif.Lemmas.Updates
+import Verif.Props.C19
+import Verif.Props.C04
